@@ -352,7 +352,9 @@ class TexNode(object):
             \item Hello
         \end{itemize}
         """
-        self.expr.append(*nodes)
+        self.expr.append(*[
+            node.expr if isinstance(node, TexNode) else node
+            for node in nodes])
 
     def insert(self, i, *nodes):
         r"""Add node(s) to this node's list of children, at position i.
@@ -390,7 +392,9 @@ class TexNode(object):
             )
             node.parent = self
 
-        self.expr.insert(i, *nodes)
+        self.expr.insert(i, *[
+            node.expr if isinstance(node, TexNode) else node
+            for node in nodes])
 
     def char_pos_to_line(self, char_pos):
         r"""Map position in the original string to parsed LaTeX position.
@@ -588,6 +592,8 @@ class TexNode(object):
         \item Bye
         \end{itemize}
         """
+        nodes = [node.expr if isinstance(node, TexNode) else node
+                 for node in nodes]
         for arg in self.expr.args:
             if any(content is child.expr for content in arg._contents):
                 arg.insert(arg.remove(child.expr), *nodes)
